@@ -272,7 +272,10 @@ A configuration document either is not parsable, or declares a non-empty `"sourc
 it is then ignored), or is a plain set of sections.  `Manager.LoadJSON` of a sourced document sets
 `Manager.Source`, fetches the URL and loads the body with `sourceRedirs = 1`, which refuses a body that has a
 source of its own (after having set `Source` to it and fetched it).  `Manager.ToJSON` writes only
-`{"source": Source}` while `Source` is non-empty.  Nothing ever clears `Source`.
+`{"source": Source}` while `Source` is non-empty.  `Source` is cleared only by a parsable plain document given
+to `LoadJSON` directly (`sourceRedirs = 0`; /repo fbf34ff) — before its sections are loaded, so also when
+they then fail; an unparsable document returns before that, the nested body of a fetch never clears it, and
+neither does `Default()`.
 
 `υ` is the type of URLs, `web` what a GET answers.  The effective configuration of the registered sections is
 abstracted to a number (`cfg = none`: the sections do not validate, `ToJSON` refuses). -/
@@ -312,8 +315,8 @@ def fromHTTP (web : υ → Remote υ) (m : Mgr υ) (u : υ) : Mgr υ × Bool :=
 
 /-- `LoadJSON` / `LoadJSONFromFile` on a Manager at rest -/
 def loadJSON (web : υ → Remote υ) (m : Mgr υ) : Doc υ → Mgr υ × Bool
-  | .garbage => (m, false)
-  | .plain c v => ({ m with cfg := if v then some c else none }, v)
+  | .garbage => (m, false)                                                     -- returns before the reset
+  | .plain c v => ({ source := none, cfg := if v then some c else none }, v)   -- Source := "" then the sections
   | .sourced u => fromHTTP web m u
 
 /-- `Manager.Default()`: every section takes its default (configuration number 0); `Source` is not touched -/
